@@ -241,7 +241,13 @@ CLAIMS["C08"] = dict(
    design="6/C08", technique="Coq lifting lemma + vm_compute instance of the generator model + staged regeneration on the implementation",
    note="The reader side (regenerated parser reads the meta-grammar to the same grammar) is established by execution, not inside Coq.")
 CLAIMS["C01"] = dict(
-   text="Reference semantics in Coq (Sem/Peg.v: sequence, ordered choice with commitment, optional, greedy */+, s.e+, &/!, "
+   text="End-to-end compilation-correctness THEOREMS (detailed in the note): for every grammar and generated module that satisfy a decidable "
+        "instance condition (evaluated in Coq on the generator model's output, which K-gen ties to the real generator's text) -- "
+        "repetitions, gathers, groups, optionals, lookaheads, cuts, forced items, explicit actions, invalid_ rules in the first pass, the "
+        "packrat cache; pegen's own metagrammar among the instances -- whatever a rule's method returns or raises as SyntaxError is what "
+        "the reference semantics of the SOURCE grammar prescribes, for all token lists, states and fuel. Outside that class (left "
+        "recursion, LOCATIONS, bare invalid_ alternatives in the second pass) and as the tie to the code: "
+        "reference semantics in Coq (Sem/Peg.v: sequence, ordered choice with commitment, optional, greedy */+, s.e+, &/!, "
         "cut, forced, documented value rule, raising actions) with theorems (Props/C01.v): the relation is FUNCTIONAL (one "
         "outcome per item and position), successful matches never end before they start, and the executable evaluator "
         "Sem/PegEval.v is SOUND for the relation (C01_evaluator_sound, induction on fuel: whatever it returns is derivable, "
